@@ -243,8 +243,34 @@ Lemma fixed_member_name_clash :
     (fun p => wf_program p && leaves_agree_norm p ex_schema (hd opM (d_ops docK3)) "K" respK3) = true.
 Proof. repeat split; vm_compute; reflexivity. Qed.
 
-(** decl-name-clash is not repaired: the generator of the current tree still declares EA twice *)
-Lemma refuted_decl_name_clash_real :
-  env schemaK2 docK2 = true /\ excl_member_clash schemaK2 docK2 = false /\ decl_safe schemaK2 docK2 = false /\
-  generated_and (generate_s schemaK2 (doc_valid schemaK2 docK2) docK2) (fun p => negb (wf_program p)) = true.
+(** decl-name-clash with the generator of the current tree (fix "an enum named like a generated type,
+    a reserved identifier or another enum's constant"): the second constant is EA_, the output is
+    well formed and decodes *)
+Definition respK2 : rv := RObj (bs "Query") [(bs "e", S_ "a")].
+Definition schemaK5 : schema :=
+  {| s_query := bs "Query"; s_mutation := None;
+     s_types := [ DEnum (bs "KData") [bs "x"]; DEnum (bs "string") [bs "y"];
+                  DObj (bs "Query") [] [(bs "e", T "KData"); (bs "f", T "string")] ] |}.
+Definition docK5 : document := mkdoc [q "K" [F "e" []; F "f" []]] [].
+Definition respK5 : rv := RObj (bs "Query") [(bs "e", S_ "x"); (bs "f", RNull)].
+
+Lemma fixed_decl_name_clash :
+  env schemaK2 docK2 = true /\ decl_safe schemaK2 docK2 = false /\
+  generated_and (generate_s schemaK2 (doc_valid schemaK2 docK2) docK2)
+    (fun p => wf_program p && leaves_agree p schemaK2 (hd opM (d_ops docK2)) "K" respK2) = true /\
+  env schemaK5 docK5 = true /\ decl_safe schemaK5 docK5 = false /\
+  generated_and (generate_s schemaK5 (doc_valid schemaK5 docK5) docK5)
+    (fun p => wf_program p && leaves_agree p schemaK5 (hd opM (d_ops docK5)) "K" respK5) = true.
+Proof. repeat split; vm_compute; reflexivity. Qed.
+
+(** what is left of decl-name-clash: a clash that involves a sel<T><n> helper type (here: an enum
+    named selQuery0) is not repaired *)
+Definition schemaK8 : schema :=
+  {| s_query := bs "Query"; s_mutation := None;
+     s_types := [ DEnum (bs "selQuery0") [bs "x"]; DObj (bs "Query") [] [(bs "e", T "selQuery0")] ] |}.
+Definition docK8 : document := mkdoc [q "K" [ON "Query" [F "e" []]]] [].
+
+Lemma refuted_sel_name_clash :
+  env schemaK8 docK8 = true /\ excl_member_clash schemaK8 docK8 = false /\ decl_safe schemaK8 docK8 = false /\
+  generated_and (generate_s schemaK8 (doc_valid schemaK8 docK8) docK8) (fun p => negb (wf_program p)) = true.
 Proof. repeat split; vm_compute; reflexivity. Qed.
